@@ -89,6 +89,7 @@ type Sim struct {
 
 	InitialNative *big.Int
 	InitialToken  map[common.Address]*big.Int
+	forceCreate   map[common.Address][]byte   // the account's next transaction is the creation whose address was just pre-funded
 	CandKeys      []crypto.PubKey             // elected candidates of the genesis (Options.Candidates), then one stranger
 	Issued        map[common.Address]*big.Int // by design: ISSUE
 	Destroyed     map[common.Address]*big.Int // by design: self-destruct to self (native + tokens)
@@ -315,7 +316,29 @@ func (s *Sim) GenAccountTx(t *rapid.T, kinds []string) *Tx {
 	pend := s.W.App.GetPendingStateDB()
 	bal := pend.GetBalance(from.Addr)
 	kind := rapid.SampledFrom(kinds).Draw(t, "kind")
+	var forcedCode []byte
+	if c, ok := s.forceCreate[from.Addr]; ok {
+		delete(s.forceCreate, from.Addr)
+		kind, forcedCode = "create", c
+	}
 	switch kind {
+	case "prefund-create":
+		// tokens (or coins) are sent to the address the sender's NEXT transaction will create a contract at: the
+		// creation must carry over what the address already holds
+		code := rapid.SampledFrom([][]byte{CodeReverter, CodeForwarder, CodeSuicider}).Draw(t, "prefundcode")
+		ca := crypto.CreateAddress(from.Addr, nonce+1, InitCode(code))
+		s.Universe[ca] = struct{}{}
+		if s.forceCreate == nil {
+			s.forceCreate = map[common.Address][]byte{}
+		}
+		s.forceCreate[from.Addr] = code
+		if len(s.Tokens) > 0 && rapid.IntRange(0, 3).Draw(t, "prefundtoken") != 0 {
+			tok := rapid.SampledFrom(s.Tokens).Draw(t, "token")
+			amt := s.amountUpTo(t, pend.GetTokenBalance(from.Addr, tok), "tamt")
+			return &Tx{Tx: world.TokenTransfer(from, tok, nonce, ca, amt), Kind: kind, From: from.Addr, Desc: fmt.Sprintf("prefund-create: token %s %v to the future contract %s nonce %d", tok.Hex()[:8], amt, ca.Hex()[:8], nonce)}
+		}
+		amt := s.amountUpTo(t, new(big.Int).Div(bal, big.NewInt(8)), "amt")
+		return &Tx{Tx: world.Transfer(from, nonce, ca, amt), Kind: kind, From: from.Addr, Desc: fmt.Sprintf("prefund-create: %v coins to the future contract %s nonce %d", amt, ca.Hex()[:8], nonce)}
 	case "transfer":
 		to := rapid.SampledFrom(s.Recipients()).Draw(t, "to")
 		amt := s.amountUpTo(t, bal, "amt")
@@ -370,6 +393,9 @@ func (s *Sim) GenAccountTx(t *rapid.T, kinds []string) *Tx {
 		return &Tx{Tx: world.RawTx(from, nonce, &c, big.NewInt(0), 800000, world.GasPrice, data), Kind: kind, From: from.Addr, IssueTok: c, IssueAmt: amt, Desc: fmt.Sprintf("issue %v nonce %d", amt, nonce)}
 	case "create":
 		code := rapid.SampledFrom([][]byte{CodeReverter, CodeForwarder, CodeSuicider}).Draw(t, "createcode")
+		if forcedCode != nil {
+			code = forcedCode
+		}
 		maxv := new(big.Int).Div(bal, big.NewInt(8))
 		amt := s.amountUpTo(t, maxv, "createval")
 		gas := uint64(2000000)
